@@ -14,17 +14,29 @@ MOD = "moptipyapps.order1d.instance"
 
 def run(ctx: Ctx) -> None:
     ctx.explanation = (
-        "NARROW. Decided: D20.1 the position-distance matrix starts as "
-        "zeros and receives dist[i,j] = dist[j,i] = j - i for all j > i "
-        "(hence |i - j|); D20.2 the flow matrix starts as zeros and the "
-        "only store is skipped for i == j and for ranks beyond the horizon; "
-        "D20.3 the stored flow depends on (i, j) only through the rank "
-        "flows[i, j]; D20.4 the stored expression is antitone in the rank "
-        "(monotonicity analysis of the expression tree under flow_power > "
-        "0, multiplier > 0, base >= 1): a nearer neighbour never gets a "
-        "smaller flow, equal ranks get equal flows. NOT decided: merging "
-        "of zero-distance objects, representative indices, minimality of "
-        "swap_distance (its index safety is C13).")
+        "D20.1 the position-distance matrix starts as zeros and receives "
+        "dist[i,j] = dist[j,i] = j - i for all j > i (hence |i - j|); D20.2 "
+        "the flow matrix starts as zeros and the only store is skipped for "
+        "i == j and for ranks beyond the horizon; D20.3 the stored flow "
+        "depends on (i, j) only through the rank flows[i, j] = "
+        "rankdata(distances, axis=1, method='average') - 1; D20.4 the stored "
+        "expression is antitone in the rank (monotonicity analysis of the "
+        "expression tree under flow_power > 0, multiplier > 0) and the base "
+        "of the power is >= 1 (linear entailment from rank <= horizon, rank "
+        "<= n - 1 and max_val = min(n - 1, horizon)): a nearer neighbour "
+        "never gets a smaller flow, equal ranks get equal flows; D20.5 "
+        "swap_distance counts the cycles of p2[argsort(p1)] (cycle-walk "
+        "protocol: every unvisited position starts one cycle which is "
+        "followed and marked until it closes) and returns n - cycles, the "
+        "minimum number of transpositions; D20.6 from_sequence_and_distance "
+        "validates each distance, removes an object at distance 0 from an "
+        "earlier representative (list entry and matrix column), records it "
+        "with the representative's index and re-examines the position, "
+        "builds symmetric rows with a zero diagonal, records every "
+        "representative with its own index, and passes (matrix, flow_power, "
+        "horizon, titles, tags) to the constructor in this order. NOT "
+        "decided: the multiplier that makes half ranks integral (it does "
+        "not affect the clauses above), tag bookkeeping.")
     for rid, txt in (("D20.1", "dist = |i-j|"),
                      ("D20.2", "flow zero on diagonal / beyond horizon"),
                      ("D20.3", "flow depends on rank only"),
@@ -42,8 +54,12 @@ def run(ctx: Ctx) -> None:
                 isinstance(n.func.value, ast.Call) and ast.unparse(
                 n.func.value.func) == "super":
             sup = n
-    ctx.need(sup is not None and len(sup.args) >= 2,
-             "order1d Instance: super().__init__(distances, flows)")
+    if sup is None or len(sup.args) < 2:
+        ctx.ob("D20.1", fi, fi.node, False,
+               "the constructed matrices are never handed to the QAP base "
+               "class (super().__init__(distances, flows) not found)",
+               construct="matrices passed on")
+        return
     dname, fname = ast.unparse(sup.args[0]), ast.unparse(sup.args[1])
 
     def zeros_init(nm: str) -> bool:
@@ -149,8 +165,19 @@ def run(ctx: Ctx) -> None:
     rk = [p for p in body if isinstance(p, (ast.Assign, ast.AnnAssign))
           and ast.unparse(p.targets[0] if isinstance(p, ast.Assign)
                           else p.target) == (rank_src or "?")]
-    ok_rk = len(rk) == 1 and "rankdata(distances, axis=1" in ast.unparse(
-        rk[0].value)
+    ok_rk = False
+    if len(rk) == 1:
+        v = rk[0].value
+        # rankdata(<distances param>, axis=1, method="average") - 1
+        if isinstance(v, ast.BinOp) and isinstance(v.op, ast.Sub) and \
+                repo.const(fi.module, v.right) == 1 and isinstance(
+                v.left, ast.Call) and ast.unparse(
+                v.left.func) == "rankdata" and len(
+                v.left.args) == 1 and ast.unparse(
+                v.left.args[0]) == fi.params[1]:
+            kw = {k.arg: repo.const(fi.module, k.value)
+                  for k in v.left.keywords}
+            ok_rk = kw.get("axis") == 1 and kw.get("method") == "average"
     ctx.ob("D20.3", fi, s, bool(ok3 and ok_rk),
            f"the stored flow is a function of the rank `{rank}` = "
            f"{rank_src}[{iv},{jv}] (row-wise rank of the distances) and of "
@@ -175,10 +202,49 @@ def run(ctx: Ctx) -> None:
                           else p.target) == "max_val"]
     ok_mv = len(mv) == 1 and ast.unparse(mv[0].value).replace(
         " ", "") in ("min(n-1,horizon)", "min(horizon,n-1)")
-    ctx.ob("D20.4", fi, mv[0] if mv else fi.node, ok_mv,
-           "max_val = min(n - 1, horizon): with rank <= horizon and rank "
-           "<= n - 1 the base is >= 1", construct="base >= 1",
-           nontrivial=False)
+    # the base of the power is >= 1 (a power with exponent > 0 is only
+    # monotone on a non-negative base): rank <= horizon (skip guard), rank
+    # <= n - 1 (range of ranks), max_val = min(n - 1, horizon)
+    from sa.lin import Lin, entails
+    bases = [x.left for x in ast.walk(s.value) if isinstance(x, ast.BinOp)
+             and isinstance(x.op, ast.Pow)]
+    base_ok = ok_mv and len(bases) == 1
+
+    def lin(e: ast.expr) -> Lin | None:
+        if isinstance(e, ast.Constant) and isinstance(
+                e.value, (int, float)) and float(e.value).is_integer():
+            return Lin.const(int(e.value))
+        if isinstance(e, ast.Name):
+            return Lin.sym(e.id)
+        if isinstance(e, ast.BinOp) and isinstance(e.op, (ast.Add, ast.Sub)):
+            a, b = lin(e.left), lin(e.right)
+            if a is None or b is None:
+                return None
+            return a + b if isinstance(e.op, ast.Add) else a - b
+        return None
+    if base_ok:
+        b = lin(bases[0])
+        base_ok = False
+        if b is not None and rank is not None:
+            r_, mvs, hz, nn = (Lin.sym(rank), Lin.sym("max_val"),
+                               Lin.sym("horizon"), Lin.sym("n"))
+            common = [hz - r_, nn - 1 - r_, r_]
+            base_ok = all(entails(common + case, b - 1) for case in (
+                [mvs - hz, hz - mvs, nn - 1 - hz],       # max_val = horizon
+                [mvs - (nn - 1), (nn - 1) - mvs, hz - (nn - 1)]))
+    ctx.ob("D20.4", fi, mv[0] if mv else fi.node, base_ok,
+           "max_val = min(n - 1, horizon); with rank <= horizon (skip "
+           "guard) and rank <= n - 1 the base of the power is >= 1 (linear "
+           "entailment in both cases of the minimum)" if base_ok else
+           "the base of the power is not provably >= 1 for every stored "
+           "rank: a farther neighbour could receive a larger (or a complex) "
+           "flow", construct="base >= 1")
+    ctx.rule("D20.5", "swap distance = n - cycles of the relative "
+             "permutation")
+    _swap_distance(ctx)
+    ctx.rule("D20.6", "zero-distance objects are merged and mapped to "
+             "their representative")
+    _merging(ctx)
     ctx.assumptions += [
         "scipy rankdata(..., 'average') - 1 yields ranks in [0, n-1], "
         "equal for equal distances, smaller for nearer neighbours",
@@ -258,3 +324,341 @@ def _mono(e: ast.expr, var: str, pos: dict[str, bool]) -> int | None:
                 return a
             return None
     return None
+
+
+# ------------------------------------------------------------------ D20.5
+def _swap_distance(ctx: Ctx) -> None:
+    """swap_distance = n - number of cycles of the relative permutation."""
+    repo = ctx.repo
+    fi = repo.func("moptipyapps.order1d.distances", "swap_distance")
+    p1, p2 = fi.params
+    body = func_body(fi)
+    problems: list[str] = []
+
+    def tname(s: ast.stmt) -> str | None:
+        if isinstance(s, ast.Assign) and isinstance(s.targets[0], ast.Name):
+            return s.targets[0].id
+        if isinstance(s, ast.AnnAssign) and isinstance(
+                s.target, ast.Name) and s.value is not None:
+            return s.target.id
+        return None
+    defs = {tname(s): s.value for s in body if tname(s) is not None}
+    nname = next((k for k, v in defs.items() if ast.unparse(v).replace(
+        " ", "") in (f"len({p1})", f"len({p2})")), None)
+    xname = next((k for k, v in defs.items() if ast.unparse(v).replace(
+        " ", "") in (f"{p2}[np.argsort({p1})]", f"{p1}[np.argsort({p2})]")),
+        None)
+    if nname is None:
+        problems.append("the length n is not taken from the permutations")
+    if xname is None:
+        problems.append("the relative permutation p2[argsort(p1)] is not "
+                        "formed")
+    uname = None
+    for k, v in defs.items():
+        if isinstance(v, ast.Call) and ast.unparse(v.func) in (
+                "np.ones", "np.full") and v.args and ast.unparse(
+                v.args[0]) == nname:
+            okv = ast.unparse(v.func) == "np.ones" or (
+                len(v.args) > 1 and repo.const(fi.module, v.args[1]) is True)
+            if okv:
+                uname = k
+    if uname is None:
+        problems.append("no all-True `unvisited` marker array of length n")
+    loop = next((s for s in body if isinstance(s, ast.For)), None)
+    rets = [r for r in ast.walk(fi.node) if isinstance(r, ast.Return)]
+    cname = None
+    if loop is None or not isinstance(loop.target, ast.Name) or ast.unparse(
+            loop.iter).replace(" ", "") != f"range({nname})":
+        problems.append("the scan does not visit every position 0..n-1")
+    elif not problems:
+        iv = loop.target.id
+        tests = [s for s in loop.body if isinstance(s, ast.If)]
+        if len(tests) != 1 or len(loop.body) != 1 or tests[0].orelse or \
+                ast.unparse(tests[0].test).replace(" ", "") not in (
+                f"{uname}[{iv}]", f"{uname}[{iv}]==True"):
+            problems.append("a new cycle is not started exactly at the "
+                            "positions that are still unvisited")
+        else:
+            blk = tests[0].body
+            incs = [s for s in blk if isinstance(s, ast.AugAssign)
+                    and isinstance(s.op, ast.Add) and isinstance(
+                        s.target, ast.Name) and repo.const(
+                        fi.module, s.value) == 1]
+            if len(incs) != 1:
+                problems.append("the cycle counter is not incremented by "
+                                "one per new cycle")
+            else:
+                cname = incs[0].target.id
+                if repo.const(fi.module, defs.get(cname)) != 0 or any(
+                        isinstance(s, (ast.Assign, ast.AugAssign)) and s is
+                        not incs[0] and any(
+                            isinstance(t, ast.Name) and t.id == cname
+                            for t in ast.walk(s) if isinstance(
+                                getattr(t, "ctx", None), ast.Store))
+                        for s in ast.walk(loop)):
+                    problems.append("the cycle counter does not start at 0 "
+                                    "or is changed elsewhere")
+            wl = next((s for s in blk if isinstance(s, ast.While)), None)
+            jn = None
+            for s in blk:
+                if tname(s) is not None and ast.unparse(s.value).replace(
+                        " ", "") == f"{xname}[{iv}]":
+                    jn = tname(s)
+            if wl is None or jn is None:
+                problems.append("the cycle through position i is not "
+                                "followed (j = x[i]; while j != i)")
+            else:
+                tsrc = ast.unparse(wl.test).replace(" ", "")
+                ok_t = tsrc in (f"{jn}!={iv}", f"{iv}!={jn}")
+                marks = [s for s in wl.body if isinstance(s, ast.Assign)
+                         and ast.unparse(s.targets[0]).replace(
+                             " ", "") == f"{uname}[{jn}]" and repo.const(
+                             fi.module, s.value) is False]
+                steps = [s for s in wl.body if tname(s) == jn and
+                         ast.unparse(s.value).replace(
+                             " ", "") == f"{xname}[{jn}]"]
+                if not ok_t:
+                    problems.append("the cycle walk does not stop exactly "
+                                    "when it returns to its start")
+                if len(marks) != 1:
+                    problems.append("positions on the cycle are not marked "
+                                    "visited")
+                if len(steps) != 1 or (marks and steps and wl.body.index(
+                        marks[0]) > wl.body.index(steps[0])):
+                    problems.append("the walk does not advance j = x[j] "
+                                    "after marking j")
+    if len(rets) != 1 or cname is None or ast.unparse(
+            rets[0].value).replace(" ", "") not in (
+            f"{nname}-{cname}", f"int({nname}-{cname})"):
+        problems.append("the result is not n - (number of cycles)")
+    ctx.ob("D20.5", fi, fi.node, not problems,
+           "swap_distance counts the cycles of p2[argsort(p1)] (each "
+           "unvisited position starts one cycle, which is walked and marked "
+           "until it closes) and returns n - cycles, the minimum number of "
+           "transpositions" if not problems else "; ".join(problems),
+           construct="cycle counting")
+
+
+# ------------------------------------------------------------------ D20.6
+def _merging(ctx: Ctx) -> None:
+    """from_sequence_and_distance merges zero-distance objects."""
+    repo = ctx.repo
+    fi = repo.func(MOD, "Instance.from_sequence_and_distance")
+    body = func_body(fi)
+    problems: list[str] = []
+    outer = next((s for s in body if isinstance(s, ast.While)), None)
+    if outer is None:
+        ctx.ob("D20.6", fi, fi.node, False, "no loop over the objects",
+               construct="merging protocol")
+        return
+
+    def src(n: ast.AST) -> str:
+        return ast.unparse(n).replace(" ", "")
+
+    def names_assigned(stmts: list[ast.stmt], nm: str) -> list[ast.stmt]:
+        return [s for s in stmts if isinstance(
+            s, (ast.Assign, ast.AnnAssign, ast.AugAssign)) and isinstance(
+            s.targets[0] if isinstance(s, ast.Assign) else s.target,
+            ast.Name) and (s.targets[0] if isinstance(s, ast.Assign)
+                           else s.target).id == nm]
+    t = outer.test
+    if not (isinstance(t, ast.Compare) and len(t.ops) == 1 and isinstance(
+            t.ops[0], ast.Lt) and isinstance(t.left, ast.Name)
+            and isinstance(t.comparators[0], ast.Call)
+            and src(t.comparators[0].func) in ("len", "list.__len__")):
+        ctx.ob("D20.6", fi, outer, False,
+               "the outer loop is not `while i < len(objects)`",
+               construct="merging protocol")
+        return
+    iv = t.left.id
+    data = src(t.comparators[0].args[0])
+    pre = body[:body.index(outer)]
+    i0 = names_assigned(pre, iv)
+    if len(i0) != 1 or repo.const(fi.module, i0[-1].value) != 0:
+        problems.append(f"`{iv}` does not start at 0")
+    inner = next((s for s in outer.body if isinstance(s, ast.While)), None)
+    if inner is None:
+        problems.append("no inner loop over the later objects")
+    else:
+        t2 = inner.test
+        ok2 = isinstance(t2, ast.Compare) and len(t2.ops) == 1 and \
+            isinstance(t2.ops[0], ast.Lt) and isinstance(
+            t2.left, ast.Name) and src(t2.comparators[0]) in (
+            f"len({data})", f"list.__len__({data})")
+        if not ok2:
+            problems.append("the inner loop is not `while j < len(objects)`")
+        else:
+            jv = t2.left.id
+            before = outer.body[:outer.body.index(inner)]
+            after = outer.body[outer.body.index(inner) + 1:]
+            j0 = names_assigned(before, jv)
+            if len(j0) != 1 or src(j0[0].value) not in (f"{iv}+1",
+                                                         f"1+{iv}"):
+                problems.append(f"`{jv}` does not start at {iv} + 1")
+            # objects of this round
+            o1 = next((s for s in before if isinstance(
+                s, (ast.Assign, ast.AnnAssign)) and s.value is not None
+                and src(s.value) == f"{data}[{iv}]"), None)
+            o2 = next((s for s in inner.body if isinstance(
+                s, (ast.Assign, ast.AnnAssign)) and s.value is not None
+                and src(s.value) == f"{data}[{jv}]"), None)
+            o1n = (o1.targets[0] if isinstance(o1, ast.Assign)
+                   else o1.target).id if o1 is not None else None
+            o2n = (o2.targets[0] if isinstance(o2, ast.Assign)
+                   else o2.target).id if o2 is not None else None
+            if o1n is None or o2n is None:
+                problems.append("the two compared objects are not "
+                                f"{data}[{iv}] and {data}[{jv}]")
+            # the row under construction
+            rows = None
+            rowv = None
+            for s in before:
+                if isinstance(s, (ast.Assign, ast.AnnAssign)) and isinstance(
+                        s.value, ast.ListComp) and len(
+                        s.value.generators) == 1:
+                    g = s.value.generators[0]
+                    if isinstance(s.value.elt, ast.Subscript) and src(
+                            s.value.elt) == f"{src(g.target)}[{iv}]" and \
+                            not g.ifs:
+                        rows = src(g.iter)
+                        rowv = (s.targets[0] if isinstance(s, ast.Assign)
+                                else s.target).id
+            if rows is None:
+                problems.append("a new row does not start with column i of "
+                                "the earlier rows (symmetry)")
+            else:
+                diag = [s for s in before if isinstance(s, ast.Expr)
+                        and src(s.value) == f"{rowv}.append(0)"]
+                if len(diag) != 1:
+                    problems.append("the diagonal entry 0 is not appended")
+                # purge / keep branches
+                dist_def = next((s for s in inner.body if isinstance(
+                    s, (ast.Assign, ast.AnnAssign)) and isinstance(
+                    s.value, ast.Call) and src(s.value.func) == fi.params[1]),
+                    None)
+                dn = (dist_def.targets[0] if isinstance(dist_def, ast.Assign)
+                      else dist_def.target).id if dist_def is not None \
+                    else None
+                if dn is None or sorted(src(a) for a in
+                                        dist_def.value.args) != sorted(
+                        [o1n or "?", o2n or "?"]):
+                    problems.append("the distance is not get_distance of "
+                                    "the two objects of this round")
+                purge = next((s for s in inner.body if isinstance(s, ast.If)
+                              and dn is not None and src(s.test) in (
+                                  f"{dn}<=0", f"{dn}==0", f"0>={dn}",
+                                  f"{dn}<=0.0", f"{dn}==0.0")), None)
+                if purge is None:
+                    problems.append("objects at distance 0 are not singled "
+                                    "out (`if dist <= 0`)")
+                else:
+                    pb = [src(s) for s in purge.body]
+                    need = [f"mappings.append(({o2n},{iv}))",
+                            f"del{data}[{jv}]"]
+                    maps = None
+                    for s in purge.body:
+                        if isinstance(s, ast.Expr) and isinstance(
+                                s.value, ast.Call) and src(
+                                s.value.func).endswith(".append") and \
+                                s.value.args and src(
+                                s.value.args[0]) == f"({o2n},{iv})":
+                            maps = src(s.value.func)[:-7]
+                    if maps is None:
+                        problems.append("a merged object is not recorded "
+                                        "with the index of its "
+                                        "representative")
+                    if f"del{data}[{jv}]" not in pb:
+                        problems.append("a merged object is not removed "
+                                        "from the object list")
+                    cols = [s for s in purge.body if isinstance(s, ast.For)
+                            and src(s.iter) == rows and len(s.body) == 1
+                            and src(s.body[0]) ==
+                            f"del{src(s.target)}[{jv}]"]
+                    if len(cols) != 1:
+                        problems.append("the column of a merged object is "
+                                        "not removed from the earlier rows")
+                    if not (purge.body and isinstance(
+                            purge.body[-1], ast.Continue)) or any(
+                            names_assigned([s], jv) for s in purge.body):
+                        problems.append("after a merge the same position "
+                                        "must be examined again (continue, "
+                                        "j unchanged)")
+                    rest = inner.body[inner.body.index(purge) + 1:]
+                    keep_app = [s for s in rest if isinstance(s, ast.Expr)
+                                and src(s.value) == f"{rowv}.append({dn})"]
+                    keep_inc = [s for s in rest if isinstance(
+                        s, ast.AugAssign) and src(s) == f"{jv}+=1"]
+                    if len(keep_app) != 1 or len(keep_inc) != 1 or len(
+                            rest) != 2:
+                        problems.append("a kept object does not contribute "
+                                        "exactly one distance and one step")
+                    del need
+                    # end of the round
+                    a_src = [src(s) for s in after]
+                    want = [f"{maps}.append(({o1n},{iv}))" if maps else "?",
+                            f"{rows}.append({rowv})", f"{iv}+=1"]
+                    if sorted(a_src) != sorted(want):
+                        problems.append(
+                            "a round does not end with: record the "
+                            "representative itself, store the row, advance "
+                            f"(found {a_src})")
+                    # the result
+                    rets = [r for r in ast.walk(fi.node)
+                            if isinstance(r, ast.Return)]
+                    okr = False
+                    if len(rets) == 1 and isinstance(
+                            rets[0].value, ast.Call) and src(
+                            rets[0].value.func) == "Instance":
+                        a = rets[0].value.args
+                        okr = len(a) >= 5 and src(a[0]) == \
+                            f"np.array({rows})" and maps is not None and \
+                            maps in src(a[4])
+                    if not okr:
+                        problems.append("the instance is not built from "
+                                        "the reduced distance matrix and "
+                                        "the object -> representative map")
+                    else:
+                        ctor = repo.func(MOD, "Instance.__init__").params[1:]
+                        a = rets[0].value.args
+                        for k in (1, 2, 3):
+                            if k < len(a) and src(a[k]) != ctor[k]:
+                                problems.append(
+                                    f"constructor parameter `{ctor[k]}` "
+                                    f"receives `{src(a[k])}`")
+                    # distances are validated before use: raise iff not
+                    # (finite and 0 <= d <= 1e100)
+                    val = next((s for s in inner.body if isinstance(
+                        s, ast.If) and s.body and isinstance(
+                        s.body[-1], ast.Raise)), None)
+                    okv = False
+                    if val is not None and isinstance(
+                            val.test, ast.UnaryOp) and isinstance(
+                            val.test.op, ast.Not) and isinstance(
+                            val.test.operand, ast.BoolOp) and isinstance(
+                            val.test.operand.op, ast.And):
+                        parts = val.test.operand.values
+                        fin = any(src(p_) in (f"isfinite({dn})",
+                                              f"math.isfinite({dn})",
+                                              f"np.isfinite({dn})")
+                                  for p_ in parts)
+                        rng = any(isinstance(p_, ast.Compare) and len(
+                            p_.ops) == 2 and all(isinstance(o, ast.LtE)
+                                                 for o in p_.ops)
+                            and repo.const(fi.module, p_.left) == 0
+                            and src(p_.comparators[0]) == dn
+                            and repo.const(fi.module, p_.comparators[1])
+                            == 1e100 for p_ in parts)
+                        okv = fin and rng and inner.body.index(
+                            val) < inner.body.index(purge)
+                    if not okv:
+                        problems.append(
+                            "a distance is not rejected exactly when it is "
+                            "not finite or outside [0, 1e100] (before it "
+                            "is used)")
+    ctx.ob("D20.6", fi, outer, not problems,
+           "objects at distance 0 from an earlier representative are "
+           "removed (list entry and matrix column), recorded with the "
+           "representative's index and the position is examined again; "
+           "kept objects contribute one symmetric distance; every "
+           "representative is recorded with its own index" if not problems
+           else "; ".join(problems), construct="merging protocol")
